@@ -109,7 +109,9 @@ def unnamed_case(ctx, sess, keys, rm, cls, base, suf, wd):
             elif use_wd and cls == 'path':
                 ctx.failure('%s cannot turn the path %r into a URL: %s' % (entry, text, io[6][:120]), {'entry': entry, 'input': text, 'class': cls})
             continue
-        # (ok disp given extras reg dump warnings shown contents)
+        # (ok disp given extras reg dump warnings shown contents evaluator-problems)
+        if len(r) > 9 and r[9]:
+            ctx.failure('%s(%r): the requirement-level evaluators disagree with the marker: %s' % (entry, text, '; '.join(unS(x) for x in r[9])[:300]), {'entry': entry, 'input': text})
         given = unS(r[2]) if r[2] != 'none' else None
         if '[' in base or ' ' in base:
             continue
